@@ -110,7 +110,11 @@ func c09Plant(t *rapid.T, d *vDoc, k int, names []string, label string) {
 		if r.HL.EOL == "\r\n" {
 			eol = "\r\n"
 		}
-		ln := vLine{Kind: vkRaw, Text: genC09Malformed(t, names, label+".m"), L: vLayout{EOL: eol}}
+		text := genC09Malformed(t, names, label+".m")
+		if rapid.IntRange(0, 3).Draw(t, label+".trail") == 0 {
+			text += []string{" ", "  ", "\t", " \t "}[rapid.IntRange(0, 3).Draw(t, label+".trailv")] // the line is quoted as it stands in the file
+		}
+		ln := vLine{Kind: vkRaw, Text: text, L: vLayout{EOL: eol}}
 		r.Lines = append(r.Lines[:pos], append([]vLine{ln}, r.Lines[pos:]...)...)
 	}
 	d.NoFinalNL = d.NoFinalNL && rapid.Bool().Draw(t, label+".nofinal")
@@ -312,6 +316,16 @@ func genC09(t *rapid.T) c09Case {
 	}
 	c09Plant(t, &s.Book, kb, names, "pb")
 	c09Plant(t, &s.Log, kl, names, "pl")
+	// one file in eight that holds malformed lines ends in a comment line longer than the line buffer (the read fails
+	// there): what lint has found before that point must still be reported
+	for _, d := range []*vDoc{&s.Book, &s.Log} {
+		planted, _ := c09Find(*d)
+		if len(planted) > 0 && len(planted) < 50 && len(d.Recs) > 0 && rapid.IntRange(0, 7).Draw(t, "longtail") == 0 {
+			last := &d.Recs[len(d.Recs)-1]
+			last.Lines = append(last.Lines, vLine{Kind: vkComment, Text: strings.Repeat("c", 70000), L: vLayout{EOL: "\n"}})
+			d.NoFinalNL = false
+		}
+	}
 	c := c09Case{S: s, Silent: rapid.Bool().Draw(t, "silent"), Bin: rapid.IntRange(0, 24).Draw(t, "bin") == 0}
 	if rapid.IntRange(0, 2).Draw(t, "period") == 0 {
 		if rapid.Bool().Draw(t, "hasb") {
